@@ -91,6 +91,15 @@ func c18Valid(c *Ctx, s string, f iso8601.ValidFlags, want bool) {
 }
 
 // c18Parse compares iso8601.Parse with time.Parse(time.RFC3339Nano, s)
+// sameDateOtherTime: s with the seconds' last digit changed when s has the shape of a timestamp (else s itself)
+func sameDateOtherTime(s string) string {
+	if len(s) >= 19 && s[10] == 'T' && s[18] >= '0' && s[18] <= '9' {
+		d := byte('0' + (s[18]-'0'+1)%10)
+		return s[:18] + string(d) + s[19:]
+	}
+	return s
+}
+
 func c18Parse(c *Ctx, s string) {
 	c.Eval(1)
 	want, werr := time.Parse(time.RFC3339Nano, s)
@@ -103,6 +112,19 @@ func c18Parse(c *Ctx, s string) {
 	if (werr == nil) != (gerr == nil) {
 		c.Diverge("C18", "iso8601.Parse", fmt.Sprintf("time.Parse: %v err=%v", want, werr), fmt.Sprintf("%v err=%v", got, gerr), "", c18Case{API: "Parse", S: s})
 		return
+	}
+	// the same text once more, and a text with the same date and another time of day: Parse is a function of its
+	// argument (nothing it learnt from the call before may show)
+	for _, again := range []string{s, sameDateOtherTime(s)} {
+		w2, werr2 := time.Parse(time.RFC3339Nano, again)
+		var g2 time.Time
+		var gerr2 error
+		c.Eval(1)
+		if p := protect(func() { g2, gerr2 = iso8601.Parse(again) }); p != "" || (werr2 == nil) != (gerr2 == nil) || (werr2 == nil && !w2.Equal(g2)) {
+			c.Diverge("C18", "iso8601.Parse(right after a call with the same date)", fmt.Sprintf("time.Parse: %v err=%v", w2, werr2), fmt.Sprintf("%v err=%v %s", g2, gerr2, p), "",
+				c18Case{API: "Parse", S: s})
+			return
+		}
 	}
 	if werr != nil {
 		return
